@@ -21,7 +21,7 @@ def gen_case(rng):
     style = rng.choice(["block", "kitty", "kitty", "iterm2", "iterm2", "iterm2"])
     w = rng.choice([1, 1, 2, 3, 5, 8, 12])
     h = rng.choice([1, 1, 2, 3, 4, 8])
-    case = {"style": style, "cells": [w, h], "img": R.gen_image(rng, 12),
+    case = {"style": style, "cells": [w, h], "img": R.gen_image(rng, 12, kinds=("random", "runs", "uniform", "alpha-flip", "bands")),
             "alpha": rng.choice(R.ALPHAS), "args": {}}
     if style == "block":
         case["args"]["split_cells"] = rng.random() < 0.3
@@ -80,6 +80,28 @@ def corpus():
                 cs.append({"style": "iterm2", "cells": [w, h], "alpha": None, "term": term,
                            "img": {"mode": "RGB", "size": [4, 4], "seed": 7, "kind": "runs", "frames": 3},
                            "args": {"method": "anim", "mix": mix}})
+    # kitty LINES with compression over strips of very different compressibility (flat / noise)
+    for level in (1, 4, 9):
+        for mode in ("RGB", "RGBA"):
+            cs.append({"style": "kitty", "cells": [4, 4], "cell_size": [4, 4], "alpha": 0.5 if mode == "RGBA" else None,
+                       "term": "", "img": {"mode": mode, "size": [16, 16], "seed": 5, "kind": "bands"},
+                       "args": {"method": "lines", "compress": level}})
+    # DYNAMIC size: the advertised size is asked, then the cell size / cell ratio changes (same
+    # columns x lines), then the image is rendered: output and advertised size must agree
+    for style, dyn, cell in (("kitty", {"pre": {"cell_size": [10, 20]}}, [10, 16]),
+                             ("iterm2", {"pre": {"cell_size": [8, 16]}}, [10, 16]),
+                             ("block", {"pre": {"ratio": 0.5}, "ratio": 0.4}, [10, 20]),
+                             ("block", {"pre": {"ratio": 1.0}, "ratio": 0.5}, [10, 20])):
+        cs.append({"style": style, "cells": [0, 0], "cell_size": cell, "alpha": None, "term": "", "dynamic": dyn,
+                   "img": {"mode": "RGB", "size": [40, 30], "seed": 3, "kind": "runs"},
+                   "args": ({"method": "lines"} if style != "block" else {})})
+    # the terminal is resized while one render of a dynamically sized image is in progress
+    for style in ("block", "kitty", "iterm2"):
+        for k0 in ((1, 2, 3) if style == "block" else (1, 2)):
+            for other in (([40, 15], [120, 50]) if style == "block" else ([40, 15],)):
+                cs.append({"style": style, "cells": [0, 0], "alpha": None, "term": "", "dynamic": {},
+                           "resize_during": [k0, other], "img": {"mode": "RGB", "size": [30, 30], "seed": 4, "kind": "runs"},
+                           "args": ({"method": "lines"} if style != "block" else {})})
     # kitty transmissions whose base64 payload is an exact multiple of the chunk size (k * 4096):
     # the last chunk must still close the chunked transmission (m=0)
     for (cells, px, mode, alpha) in (([16, 2], [128, 32], "RGB", None), ([8, 2], [64, 32], "RGB", None),
@@ -93,7 +115,7 @@ def corpus():
 
 
 def nontrivial(c):
-    return c["cells"][0] >= 2 and c["cells"][1] >= 2
+    return (c["cells"][0] >= 2 and c["cells"][1] >= 2) or c.get("dynamic") is not None
 
 
 def run(ctx):
